@@ -107,9 +107,17 @@ func main() {
 	if len(flag.Args()) > 0 {
 		fmt.Sscan(flag.Args()[0], &n)
 	}
-	base := os.Getenv("VERIF_WORK") + "/c13items"
-	os.RemoveAll(base)
 	r := gen.FromEnv(1314)
+	// two indexes: the drops of the first include the newest series (the last id of its merged rows and of the LAST tag->ids row of
+	// the part); the drops of the second touch neither the last tag->ids row nor the greatest tag values
+	for sc := 0; sc < 2; sc++ {
+		scenario(n, sc, r.Fork())
+	}
+}
+
+func scenario(n, sc int, r *gen.Rand) {
+	base := fmt.Sprintf("%s/c13items%d", os.Getenv("VERIF_WORK"), sc)
+	os.RemoveAll(base)
 	seq := uint64(1000)
 	b, idx := open(base+"/main", 2, 1, &seq)
 	// long tag values: the key->id and id->key items of 1500 series fill several 64 KB blocks
@@ -149,9 +157,19 @@ func main() {
 	}
 	before := idx.VerifC13Table().VerifC13PartItems()
 	// the drops: a few random series, the newest one (last id of its merged rows) and one in the middle
-	dropped := map[int]bool{n - 1: true, n / 2: true}
-	for nd := r.Range(2, 6); nd > 0; nd-- {
-		dropped[r.Intn(n)] = true
+	dropped := map[int]bool{}
+	if sc == 0 {
+		dropped[n-1], dropped[n/2] = true, true
+		for nd := r.Range(2, 6); nd > 0; nd-- {
+			dropped[r.Intn(n)] = true
+		}
+	} else {
+		// zone=z4 is the greatest tag value of the greatest tag key: its rows are the last tag->ids rows of a part
+		for len(dropped) < 5 {
+			if i := r.Intn(n - 1); i%5 != 4 {
+				dropped[i] = true
+			}
+		}
 	}
 	var delIDs []uint64
 	var dl []int
@@ -166,11 +184,14 @@ func main() {
 		must(del.WriteDeleteTsids(ids))
 		delIDs = append(delIDs, ids...)
 	}
-	if os.Getenv("C13ITEMS_DELFLUSH") != "" {
-		del.DebugFlush() // the dropped ids reach a part of the deleted-series table (what its periodic flush does within seconds)
-	}
-	must(b.DropSeries()) // the purge task
+	del.DebugFlush()       // the dropped ids reach a part of the deleted-series table (what its periodic flush does within seconds)
+	perr := b.DropSeries() // the purge task
 	after := idx.VerifC13Table().VerifC13PartItems()
+	// what is left of the deleted-series table on disk: a pass that reports success discards the flushed ids
+	delLeft := 0
+	for _, p := range del.VerifC13Table().VerifC13PartItems() {
+		delLeft += len(p)
+	}
 	if os.Getenv("C13ITEMS_DEBUG") != "" {
 		// where are the pairs a moment later, and after a reopen?
 		time.Sleep(3 * time.Second)
@@ -212,6 +233,25 @@ func main() {
 	}
 	must(b.Close())
 	must(bd.Close())
+	// the restart: both indexes are opened again; the dropped series must still be hidden and everything else listed
+	seq2, seqd2 := uint64(900000), uint64(900000)
+	b2, idx2 := open(base+"/main", 2, 9, &seq2)
+	bd2, del2 := open(base+"/del", 0, 9, &seqd2)
+	idx2.SetDeleteMergeSet(del2)
+	must(del2.LoadDeletedTSIDs())
+	listed, err := idx2.SearchSeriesByTableAndCond([]byte("m_0000"), nil, tsi.DefaultTR)
+	must(err)
+	backAgain := 0
+	for _, i := range dl {
+		cond := &influxql.BinaryExpr{Op: influxql.EQ, LHS: &influxql.VarRef{Val: "host", Type: influxql.Tag}, RHS: &influxql.StringLiteral{Val: host(i)}}
+		ids, err := idx2.SearchSeriesByTableAndCond([]byte("m_0000"), cond, tsi.DefaultTR)
+		must(err)
+		if len(ids) != 0 {
+			backAgain++
+		}
+	}
+	must(b2.Close())
+	must(bd2.Close())
 	os.RemoveAll(base)
 
 	// intern heads and ids
@@ -276,7 +316,25 @@ func main() {
 		}
 		gen.Emit(map[string]any{"heads": hn})
 	}
-	gen.Emit(map[string]any{"purge_items": true, "tsid_len": idLen, "cap": mergeset.VerifC13MaxInmemoryBlockSize, "series": n, "dropped_series": len(dl),
+	// pairs of a dropped id that are still in the table
+	delSet := map[int]bool{}
+	for _, x := range dj {
+		delSet[x] = true
+	}
+	leftover := 0
+	for _, pr := range pairs {
+		if pr[1] != 0 && delSet[pr[1]] {
+			leftover++
+		}
+	}
+	perrs := ""
+	if perr != nil {
+		perrs = perr.Error()
+	}
+	gen.Emit(map[string]any{"scenario": []string{"drops-include-the-last-row", "drops-avoid-the-last-row"}[sc], "purge_error": perrs,
+		"deleted_table_items_left": delLeft, "pairs_of_dropped_ids_left": leftover, "listed_after_reopen": len(listed),
+		"expected_listed": n - len(dl), "dropped_listed_again": backAgain,
+		"purge_items": true, "tsid_len": idLen, "cap": mergeset.VerifC13MaxInmemoryBlockSize, "series": n, "dropped_series": len(dl),
 		"deleted": dj, "parts": parts, "after": pairs, "items_before": nitems, "bytes_before": nbytes, "rows_with_several_ids": nrows,
 		"parts_before": len(before), "parts_after": len(after)})
 }
